@@ -123,12 +123,12 @@ fn pair_tree<T: Scalar>(kind: Kind, n: usize, alpha: &[f64], depth: usize, relab
 
 pub fn run(ctx: &Ctx) -> CheckOutput {
     let quick = ctx.tier == Tier::Quick;
-    let n_max = if quick { 6 } else { 8 };
+    let n_max = if quick { 6 } else { 10 };
     let mut jobs: Vec<Job> = vec![];
     for kind in [Kind::Cti, Kind::Net, Kind::CenterOfGravity] {
         for n in 3..=n_max {
             let spec = Spec::un(kind, n, Spec::echo());
-            for (alpha, depth) in [(Z3.to_vec(), (n + 3).min(10)), (Z5.to_vec(), (n + 2).min(if quick { 7 } else { 8 }))] {
+            for (alpha, depth) in [(Z3.to_vec(), (n + 3).min(if quick { 10 } else { 12 })), (Z5.to_vec(), (n + 2).min(if quick { 7 } else { 8 }))] {
                 {
                     let (spec, alpha) = (spec.clone(), alpha.clone());
                     jobs.push(Box::new(move || {
